@@ -79,6 +79,8 @@ def term_of(v):
         return v
     if isinstance(v, float):
         return T.from_float(v)
+    if T.is_z3(v):
+        return v
     raise TypeError(f"not a scalar: {v!r}")
 
 
@@ -99,6 +101,7 @@ class Buf:
         self.owner = owner  # 'arg' = reachable from a caller's argument, 'call' = allocated in the call
         self.writes = 0
         self.uninit = None  # fn(idx)->bool term: element not yet initialised (np.empty)
+        self.nonfinite = None  # True / bool term: the array contains an inf/nan somewhere (input flag)
 
     def __repr__(self):
         return f"<Buf {self.name} {self.shape} {self.dtype}>"
@@ -216,7 +219,9 @@ class SArr:
 
     def snapshot(self):
         """immutable copy (fresh buffer) of the current contents"""
-        return SArr.fresh(self.shape, self.getter(), self.dtype, self.nan_getter())
+        r = SArr.fresh(self.shape, self.getter(), self.dtype, self.nan_getter())
+        r.buf.nonfinite = self.buf.nonfinite
+        return r
 
     # ---- views
     def transpose(self):
